@@ -258,7 +258,10 @@ impl Server {
             let accepts_gzip = req
                 .headers()
                 .get("Accept-Encoding")
-                .map(|v| v.to_str().unwrap().contains("gzip"))
+                // A header value may legally contain obs-text (bytes >= 0x80),
+                // for which to_str() fails. Such a value does not list gzip in
+                // a way we understand, so do not compress.
+                .map(|v| v.to_str().map(|s| s.contains("gzip")).unwrap_or(false))
                 .unwrap_or_default();
 
             if accepts_gzip {
